@@ -2429,6 +2429,204 @@ Theorem queued_deliveries_have_not_started P cfg s : reachable P cfg s ->
     exists p h, assoc_get (code s) b = Some [ITaskStart p h] /\ r_id h = rid /\ h_seq (r_spec h) = true.
 Proof. intros R. apply (q_wait s (turn_queue_discipline P cfg s R)). Qed.
 
+Lemma instr_eq_taskdone i : i = ITaskDone \/ i <> ITaskDone.
+Proof. destruct i; try (right; discriminate). left. reflexivity. Qed.
+Lemma instr_eq_dispatch_async i :
+  (exists p h, i = IDispatch p h /\ h_async (r_spec h) = true) \/ (forall p h, i = IDispatch p h -> h_async (r_spec h) = false).
+Proof.
+  destruct i; try (right; intros; discriminate).
+  destruct (h_async (r_spec h)) eqn:E; [left; eauto | right; intros p' h' E'; inversion E'; subst; exact E].
+Qed.
+
+(* ------------------------------------------------------------------ *)
+(* C07: the body of an Async+Sequential handler is entered only by the goroutine that heads the handler's queue *)
+Definition seqasync (h : regn) : bool := h_async (r_spec h) && h_seq (r_spec h).
+Definition ent_i (rid : nat) (i : instr) : bool :=
+  match i with IEnter _ h => seqasync h && Nat.eqb (r_id h) rid | _ => false end.
+Definition noent (rid : nat) (c : list instr) : Prop := forall i, In i c -> ent_i rid i = false.
+Lemma noent_app rid a b : noent rid a -> noent rid b -> noent rid (a ++ b).
+Proof. intros Ha Hb i Hi. apply in_app_or in Hi. destruct Hi; auto. Qed.
+Lemma noent_cons rid i c : ent_i rid i = false -> noent rid c -> noent rid (i :: c).
+Proof. intros Hi Hc x [<-|Hx]; auto. Qed.
+Lemma noent_nil rid : noent rid []. Proof. intros i []. Qed.
+Lemma noent_tail rid i c : noent rid (i :: c) -> noent rid c.
+Proof. intros H x Hx. apply H. right. exact Hx. Qed.
+Lemma noent_acts rid l : noent rid (acts l).
+Proof. intros i Hi. unfold acts in Hi. apply in_map_iff in Hi. destruct Hi as [a [<- _]]. reflexivity. Qed.
+Lemma noent_entries rid p l : noent rid (map (IEntry p) l).
+Proof. intros i Hi. apply in_map_iff in Hi. destruct Hi as [a [<- _]]. reflexivity. Qed.
+Lemma noent_shards rid l : noent rid (map IClearShard l).
+Proof. intros i Hi. apply in_map_iff in Hi. destruct Hi as [a [<- _]]. reflexivity. Qed.
+Lemma noent_after_recover rid cfg p h async panicked : noent rid (after_recover cfg p h async panicked).
+Proof.
+  unfold after_recover. repeat apply noent_app;
+    [destruct (h_seq (r_spec h)) | destruct (panicked && c_panic_handler cfg) | destruct (c_obs cfg) | destruct async];
+    try apply noent_nil; intros i [<-|[]]; reflexivity.
+Qed.
+(* a synchronous call never enters an asynchronous handler *)
+Lemma noent_call_handler_sync rid P p h async obs : h_async (r_spec h) = false -> noent rid (call_handler P p h async obs).
+Proof.
+  intros Hs. unfold call_handler. repeat apply noent_app; try apply noent_acts;
+    [destruct obs | destruct (h_seq (r_spec h)) | | ]; try apply noent_nil; intros i [<-|[]]; try reflexivity.
+  cbn [ent_i]. unfold seqasync. rewrite Hs. reflexivity.
+Qed.
+Lemma noent_unwind rid l p h async r : unwind l = Some (p, h, async, r) -> noent rid l -> noent rid r.
+Proof.
+  intros U Hl. apply unwind_spec in U. destruct U as [pre [-> _]]. intros i Hi. apply Hl.
+  apply in_or_app. right. right. exact Hi.
+Qed.
+
+Ltac ne_tac Nr :=
+  repeat first
+    [ exact Nr
+    | apply noent_nil
+    | apply noent_after_recover
+    | (apply noent_call_handler_sync; assumption)
+    | apply noent_acts
+    | apply noent_entries
+    | apply noent_shards
+    | apply noent_cons; [reflexivity|]
+    | apply noent_app
+    | match goal with |- noent _ (if ?b then _ else _) => destruct b end
+    | match goal with |- noent _ (match ?b with _ => _ end) => destruct b end
+    | (let i := fresh in let H := fresh in intros i H; destruct H as [<-|[]]; reflexivity)
+    | (let i := fresh in let H := fresh in intros i H; destruct H) ].
+
+(* apart from the start of a delivery goroutine, no step puts such an entry into the stepping goroutine's code *)
+Lemma step_noent rid P cfg s a i rest s' ls :
+  noent rid rest -> (forall p h, i <> ITaskStart p h) -> step_instr P cfg s a i rest = Some (s', ls) ->
+  exists newc, assoc_get (code s') a = Some newc /\ noent rid newc.
+Proof.
+  intros Nr Hts H. destruct i; cbn [step_instr] in H.
+  all: try (break_head H; try discriminate; inversion H; subst; clear H;
+            solve [eexists; split;
+                   [first [apply code_cont | (cbn [cont set_code code]; rewrite ?upd_pub_code; apply assoc_get_set_same)]
+                   | ne_tac Nr]]).
+  - (* IDo *)
+    destruct a0; cbn [step_instr] in H; break_head H; try discriminate; inversion H; subst; clear H;
+      try solve [eexists; split;
+                 [first [apply code_cont | (cbn [cont set_code code]; rewrite ?upd_pub_code; apply assoc_get_set_same)]
+                 | ne_tac Nr]].
+    match goal with U : unwind rest = Some (?p, ?h, ?async, ?r) |- _ => pose proof (noent_unwind rid rest p h async r U Nr) as Nr2 end.
+    eexists. split; [apply code_cont|]. apply noent_app; [apply noent_after_recover | exact Nr2].
+  - (* ITaskStart *) exfalso. apply (Hts p h). reflexivity.
+Qed.
+
+Lemma existsb_false {A} (f : A -> bool) l : existsb f l = false -> forall x, In x l -> f x = false.
+Proof.
+  induction l as [|y l IH]; intros H x Hx; [destruct Hx|]. cbn in H. apply orb_false_iff in H. destruct H as [Hy Hl].
+  destruct Hx as [<-|Hx]; [exact Hy | apply IH; assumption].
+Qed.
+
+Definition einv (s : bstate) : Prop :=
+  forall b c rid, assoc_get (code s) b = Some c -> (exists x, In x c /\ ent_i rid x = true) -> In b (queue s rid).
+
+Lemma einv_step P cfg s a s' ls : winv s -> qinv s -> einv s -> mstep P cfg s a = Some (s', ls) -> einv s'.
+Proof.
+  intros WI Q E H. pose proof H as Hm. unfold mstep in H.
+  destruct (assoc_get (code s) a) as [[|i rest]|] eqn:Ha; try discriminate.
+  destruct (wi_bound s WI a _ Ha) as [Hlt W].
+  assert (Hfresh : assoc_get (code s) (next_actor s) = None).
+  { destruct (assoc_get (code s) (next_actor s)) eqn:E0; [|reflexivity]. destruct (wi_bound s WI _ _ E0). lia. }
+  assert (Hna : a <> next_actor s) by lia.
+  (* queues only lose the goroutine that finishes *)
+  assert (Hkeep : forall rid b, In b (queue s rid) -> b <> a \/ i <> ITaskDone -> In b (queue s' rid)).
+  { intros rid b Hb Hor.
+    destruct (instr_eq_taskdone i) as [->|Hnd].
+    - destruct Hor as [Nb|Hx]; [|contradiction Hx; reflexivity].
+      cbn [step_instr] in H. inversion H; subst; clear H. unfold queue at 1. cbn [cont set_code turnq].
+      fold (qof (pop_turn (turnq s) a) rid). rewrite qof_pop, <- (queue_qof s rid).
+      destruct (at_head (queue s rid) a) eqn:Eh; [|exact Hb].
+      apply at_head_spec in Eh. destruct Eh as [more Eh]. rewrite Eh in Hb |- *. destruct Hb as [->|Hb]; [contradiction Nb; reflexivity | exact Hb].
+    - destruct i; try (destruct (step_turn_frame P cfg s a _ rest s' ls H Hnd ltac:(intros; discriminate)) as [Eq _];
+                       unfold queue; rewrite Eq; exact Hb).
+      + (* IDispatch *)
+        destruct (h_async (r_spec h)) eqn:Hasync.
+        * cbn [step_instr] in H. rewrite Hasync in H. inversion H; subst; clear H.
+          unfold queue at 1. cbn [cont set_code turnq]. destruct (h_seq (r_spec h)); [|exact Hb].
+          fold (qof (assoc_set (turnq s) (r_id h) (queue s (r_id h) ++ [next_actor s])) rid).
+          destruct (Nat.eq_dec (r_id h) rid) as [<-|N]; [rewrite qof_set_same; apply in_or_app; left; exact Hb | rewrite qof_set_other by exact N; exact Hb].
+        * destruct (step_turn_frame P cfg s a _ rest s' ls H Hnd) as [Eq _]; [intros p' h' E'; inversion E'; subst; exact Hasync|].
+          unfold queue; rewrite Eq; exact Hb. }
+  intros b c rid Hb [x [Hx Ex]].
+  destruct (Nat.eq_dec b a) as [->|Nb].
+  - (* the stepping goroutine *)
+    destruct (q_sole s Q a _ Ha) as [Nold | [p0 [h0 E0]]].
+    + (* not a fresh delivery *)
+      destruct (existsb (ent_i rid) rest) eqn:Eold.
+      * apply existsb_exists in Eold. destruct Eold as [y [Hy Ey]].
+        assert (Hin : In a (queue s rid)) by (apply (E a _ rid Ha); exists y; split; [right; exact Hy|exact Ey]).
+        apply (Hkeep rid a Hin). right. intros ->.
+        assert (rest = []) by (apply (W [] ITaskDone rest eq_refl); reflexivity). subst rest. destruct Hy.
+      * exfalso. pose proof (existsb_false _ _ Eold) as Nr.
+        destruct (step_noent rid P cfg s a i rest s' ls Nr) as [newc [Hn Nn]]; [|exact H|].
+        -- intros p h ->. specialize (Nold _ (or_introl eq_refl)). discriminate.
+        -- rewrite Hn in Hb. inversion Hb; subst c. specialize (Nn x Hx). congruence.
+    + (* a fresh delivery starts *)
+      inversion E0; subst i rest.
+      destruct (task_start_decision P cfg s a p0 h0 [] s' ls H) as [Hn _]. rewrite Hn in Hb. inversion Hb; subst c. clear Hb.
+      destruct (is_cancelled s (pb_ctx (get_pub s p0)) && negb (h_once (r_spec h0))).
+      * destruct Hx as [<-|[]]. discriminate Ex.
+      * rewrite app_nil_r in Hx. unfold call_handler in Hx.
+        assert (Hxe : x = IEnter p0 h0).
+        { repeat (apply in_app_or in Hx; destruct Hx as [Hx|Hx]).
+          - destruct (c_obs cfg); [destruct Hx as [<-|[]]; discriminate Ex | destruct Hx].
+          - destruct (h_seq (r_spec h0)); [destruct Hx as [<-|[]]; discriminate Ex | destruct Hx].
+          - destruct Hx as [<-|[]]. reflexivity.
+          - exfalso. pose proof (noent_acts rid _ x Hx). congruence.
+          - destruct Hx as [<-|[]]. discriminate Ex. }
+        subst x. cbn [ent_i] in Ex. apply andb_true_iff in Ex. destruct Ex as [Sa Er]. apply Nat.eqb_eq in Er. subst rid.
+        unfold seqasync in Sa. apply andb_true_iff in Sa. destruct Sa as [_ Hs].
+        apply (Hkeep (r_id h0) a); [apply (q_fresh s Q a p0 h0 Ha Hs) | right; discriminate].
+  - (* somebody else: unchanged code, or freshly spawned *)
+    assert (Hold : assoc_get (code s) b = Some c \/ (forall y, In y c -> ent_i rid y = false)).
+    { destruct (instr_eq_dispatch_async i) as [[p [h [-> Hasync]]]|Hnd].
+      - cbn [step_instr] in H. rewrite Hasync in H. inversion H; subst; clear H. cbn [cont set_code code] in Hb.
+        rewrite assoc_get_set_other in Hb by congruence.
+        destruct (Nat.eq_dec (next_actor s) b) as [<-|N].
+        + rewrite assoc_get_set_same in Hb. inversion Hb; subst c. right. intros y [<-|[]]. reflexivity.
+        + rewrite assoc_get_set_other in Hb by exact N. left. exact Hb.
+      - destruct (step_others P cfg s a i rest s' ls H Hna Hnd b Nb) as [Eo|[-> Eo]].
+        + left. rewrite <- Eo. exact Hb.
+        + right. rewrite Eo in Hb. inversion Hb; subst c. intros y [<-|[]]. reflexivity. }
+    destruct Hold as [Hold|Hnone]; [|specialize (Hnone x Hx); congruence].
+    apply (Hkeep rid b); [apply (E b c rid Hold); exists x; auto | left; exact Nb].
+Qed.
+
+Lemma einv_init threads : einv (init_state threads).
+Proof.
+  intros b c rid Hb [x [Hx Ex]]. exfalso. cbn [init_state code] in Hb.
+  assert (Hall : forall n (l : list (list action)) c, assoc_get (combine (seq n (length l)) (map acts l)) b = Some c -> noent rid c).
+  { intros n l. revert n. induction l as [|y l IH]; intros n c0 Hc; [discriminate|].
+    cbn [length seq map combine assoc_get] in Hc. destruct (Nat.eqb n b); [inversion Hc; apply noent_acts | apply (IH (S n) c0 Hc)]. }
+  pose proof (Hall 0 threads c Hb x Hx). congruence.
+Qed.
+
+Lemma einv_run P cfg : forall sched s, winv s -> qinv s -> einv s -> einv (fst (run P cfg s sched)).
+Proof.
+  induction sched as [|a r IH]; intros s I Q E; cbn [run]; [exact E|].
+  destruct (mstep P cfg s a) as [[s' ls]|] eqn:Em.
+  - specialize (IH s' (winv_step P cfg s a s' ls I Em) (qinv_step P cfg s a s' ls I Q Em) (einv_step P cfg s a s' ls I Q E Em)).
+    destruct (run P cfg s' r). exact IH.
+  - apply IH; assumption.
+Qed.
+
+(* over every schedule: whoever is about to enter the body of an Async+Sequential handler heads that handler's queue -
+   so (async_sequential_fifo) every delivery dispatched to the handler before this one has finished *)
+Theorem async_sequential_enters_in_turn P cfg s a p h rest : reachable P cfg s ->
+  h_async (r_spec h) = true -> h_seq (r_spec h) = true ->
+  assoc_get (code s) a = Some (IEnter p h :: rest) -> at_head (queue s (r_id h)) a = true.
+Proof.
+  intros R Ha Hs Hc. pose proof (turn_queue_discipline P cfg s R) as Q.
+  destruct R as [threads [sched ->]].
+  pose proof (einv_run P cfg sched _ (winv_init threads) (qinv_init threads) (einv_init threads)) as E.
+  assert (Hin : In a (queue (fst (run P cfg (init_state threads) sched)) (r_id h))).
+  { apply (E a _ (r_id h) Hc). exists (IEnter p h). split; [left; reflexivity|]. cbn [ent_i]. unfold seqasync. rewrite Ha, Hs, Nat.eqb_refl. reflexivity. }
+  destruct (queue (fst (run P cfg (init_state threads) sched)) (r_id h)) as [|hd more] eqn:Eq; [destruct Hin|].
+  destruct Hin as [->|Hin]; [cbn [at_head]; apply Nat.eqb_refl|].
+  destruct (q_wait _ Q (r_id h) hd more a Eq Hin) as [p' [h' [Hc' _]]]. rewrite Hc in Hc'. discriminate.
+Qed.
+
 (* ================================================================== *)
 (* C03: progress.  In a reachable state in which (H1) the goroutines waiting for handler mutexes do not wait in a
    cycle - the documented exception is exactly such a cycle - and (H2) no goroutine sits in Wait, in Shutdown's
